@@ -19,6 +19,15 @@
 #ifndef VF_CONTRACTS_GOST28147_H
 #define VF_CONTRACTS_GOST28147_H
 #include "vf/vf.h"
+#if defined(VF_G_ABSTRACT_ROUND) && !defined(VF_REPLAY)
+/* arbitrary round function: the code's gost28147_block32 (replaced by the abstract contract
+ * below) and the spec's substitution + rotation are the SAME uninterpreted function of the
+ * 32-bit sum.  What is proved with it holds for every round function, in particular for the
+ * real one (gost.round.* jobs: gost28147_block32 == ROTL11(t(sbox, .)) pointwise). */
+#include <stdint.h>
+uint32_t __CPROVER_uninterpreted_vf_g_round(uint32_t src);
+#define VF_GOST_ROUND_T(sbox, x)	__CPROVER_uninterpreted_vf_g_round(x)
+#endif
 #include "specs/gost28147_spec.h"
 #include <errno.h>	/* the header uses EINVAL without including <errno.h> */
 #include "crypto/cipher/gost28147.h"
@@ -114,7 +123,6 @@ __CPROVER_ensures(vf_g_init_post(__CPROVER_return_value, key, key_size, sbox, ct
 
 /* ---- round function ---- */
 #ifdef VF_G_ABSTRACT_ROUND
-uint32_t __CPROVER_uninterpreted_vf_g_round(uint32_t src);
 static inline uint32_t
 gost28147_block32(gost28147_context_p ctx, const uint32_t src)
 __CPROVER_requires(__CPROVER_r_ok(ctx, sizeof(gost28147_context_t)))
@@ -151,10 +159,15 @@ vf_g_mac_ok(const uint32_t k[8], const uint8_t *sbox, uint32_t m1, uint32_t m2, 
 	return (m1 == r1 && m2 == r2);
 }
 
-#ifndef VF_G_ABSTRACT_ROUND
+#ifdef VF_G_ABSTRACT_ROUND
+#define VF_G_CTX_REQUIRES								\
+	__CPROVER_requires(__CPROVER_w_ok(ctx, sizeof(gost28147_context_t)))		\
+	__CPROVER_requires(__CPROVER_r_ok(vf_g_sbox, 128))
+#else
 #define VF_G_CTX_REQUIRES								\
 	__CPROVER_requires(__CPROVER_w_ok(ctx, sizeof(gost28147_context_t)))		\
 	__CPROVER_requires(__CPROVER_r_ok(vf_g_sbox, 128) && VF_G_CTX_OF(ctx, vf_g_sbox))
+#endif
 
 static inline void
 gost28147_block_encrypt(gost28147_context_p ctx, uint32_t n1, uint32_t n2, uint32_t *dst_n1, uint32_t *dst_n2)
@@ -180,7 +193,6 @@ __CPROVER_assigns(ctx->mac[0], ctx->mac[1])
 __CPROVER_ensures(vf_g_mac_ok(ctx->key, vf_g_sbox, __CPROVER_old(ctx->mac[0]), __CPROVER_old(ctx->mac[1]),
     n1, n2, ctx->mac[0], ctx->mac[1]))
 ;
-#endif /* !VF_G_ABSTRACT_ROUND */
 
 #endif /* !VF_REPLAY */
 #endif
